@@ -237,5 +237,13 @@ theorem step_not_oob {s : State} {op : Op} (hw : WF s) (hpre : op.srcReadable) :
   | parseU64 c base =>
     simp only [step]
     exact bind_not_oob (curParseU64_not_oob (hw.curOk c)) (fun _ _ => by simp)
+  | hashIgnoreCase c =>
+    simp only [step]
+    exact bind_not_oob (curHashIgnoreCase_not_oob (hw.curOk c)) (fun _ _ => by simp)
+  | initFromFile b f useHint sizeHint =>
+    simp only [step]
+    split
+    · simp
+    · exact bind_not_oob (bufInitFromFile_not_oob (by omega)) (fun _ _ => by simp)
 
 end AwsVerif.Proofs.C01
